@@ -192,17 +192,72 @@ func c07(c *Ctx) {
 		}
 		r.Check(freshTab, "C07.R3", "fabricated method table is private to the variable", p.Pos(mi.Pos()), "Tab is a fresh allocation per MakeInterface call",
 			"the fabricated itab comes from shared state ("+sharedWhy+") instead of a fresh allocation: all variables of one interface type share one method table, so mocking a method on one variable redirects the others and slots mocked earlier stay filled")
-		if table == nil {
-			r.Und("C07.R3", "method table in MakeInterface", p.Pos(mi.Pos()), "no local uintptr array")
-		} else {
-			n := table.Type().(*types.Pointer).Elem().Underlying().(*types.Array).Len()
-			okLoop, okSlot := false, false
-			var loopStore, slotStore *ssa.Store
+		// the method table: a local uintptr array, or the uintptr-array field of the itab allocated in this call
+		var tableIAs []*ssa.IndexAddr
+		var n int64
+		if table != nil {
+			n = table.Type().(*types.Pointer).Elem().Underlying().(*types.Array).Len()
 			for _, ref := range *table.Referrers() {
-				ia, ok := ref.(*ssa.IndexAddr)
+				if ia, ok := ref.(*ssa.IndexAddr); ok {
+					tableIAs = append(tableIAs, ia)
+				}
+			}
+		} else {
+			eachInstr(mi, func(i ssa.Instruction) {
+				ia, ok := i.(*ssa.IndexAddr)
 				if !ok {
+					return
+				}
+				fa, ok := ia.X.(*ssa.FieldAddr)
+				if !ok {
+					return
+				}
+				at, ok := fa.Type().(*types.Pointer).Elem().Underlying().(*types.Array)
+				if !ok || !isUintptr(at.Elem()) {
+					return
+				}
+				if al, ok := resolveLocal(fa.X).(*ssa.Alloc); ok && al.Heap {
+					tableIAs = append(tableIAs, ia)
+					n = at.Len()
+				}
+			})
+		}
+		// a package-level value only the initialiser writes stands for what it was initialised with
+		initValue := func(v ssa.Value) ssa.Value {
+			ld, ok := v.(*ssa.UnOp)
+			if !ok || ld.Op != token.MUL {
+				return v
+			}
+			g, ok := ld.X.(*ssa.Global)
+			if !ok {
+				return v
+			}
+			var stored ssa.Value
+			cnt := 0
+			for _, fn := range p.Funcs {
+				if fn.Blocks == nil || fn.Pkg != g.Pkg {
 					continue
 				}
+				eachInstr(fn, func(i ssa.Instruction) {
+					if st, ok := i.(*ssa.Store); ok && st.Addr == ssa.Value(g) {
+						cnt++
+						if isPkgInit(fn) {
+							stored = st.Val
+						}
+					}
+				})
+			}
+			if cnt == 1 && stored != nil {
+				return stored
+			}
+			return v
+		}
+		if len(tableIAs) == 0 {
+			r.Und("C07.R3", "method table in MakeInterface", p.Pos(mi.Pos()), "no local uintptr array")
+		} else {
+			okLoop, okSlot := false, false
+			var loopStore, slotStore *ssa.Store
+			for _, ia := range tableIAs {
 				for _, r2 := range *ia.Referrers() {
 					st, ok := r2.(*ssa.Store)
 					if !ok {
@@ -214,7 +269,7 @@ func c07(c *Ctx) {
 							if bo, ok := g.Cond.(*ssa.BinOp); ok && bo.Op == token.LSS && g.Pol && bo.X == ia.Index {
 								if cv, ok := constInt(bo.Y); ok && cv == n {
 									// stored value: Pointer() of the not-implemented routine
-									for _, a := range origins(st.Val) {
+									for _, a := range origins(initValue(resolveLocal(st.Val))) {
 										if cl, ok := a.V.(*ssa.Call); ok && calleeName(cl.Common()) == "(reflect.Value).Pointer" {
 											okLoop, loopStore = true, st
 										}
@@ -272,10 +327,23 @@ func c07(c *Ctx) {
 			r.Check(okSlot && after, "C07.R3", "mocked slot set after defaulting in MakeInterface", p.Pos(mi.Pos()), "table[index] = stub after the default loop", "the mocked slot is not stored at the requested index after the defaulting loop (it is overwritten by the default or stored elsewhere)")
 			// the table handed out is this table
 			okUse := false
+			if table == nil {
+				// filled in place: the itab whose Fun field was filled is the one stored as Tab
+				for _, ia := range tableIAs {
+					al, _ := resolveLocal(ia.X.(*ssa.FieldAddr).X).(*ssa.Alloc)
+					eachInstr(mi, func(i ssa.Instruction) {
+						if st, ok := i.(*ssa.Store); ok && al != nil {
+							if fa, ok := st.Addr.(*ssa.FieldAddr); ok && fieldVar(fa.X.Type(), fa.Field).Name() == "Tab" && resolveLocal(st.Val) == ssa.Value(al) {
+								okUse = true
+							}
+						}
+					})
+				}
+			}
 			eachInstr(mi, func(i ssa.Instruction) {
 				if st, ok := i.(*ssa.Store); ok {
 					if fa, ok := st.Addr.(*ssa.FieldAddr); ok && fieldVar(fa.X.Type(), fa.Field).Name() == "Fun" {
-						if ld, ok := st.Val.(*ssa.UnOp); ok && ld.X == ssa.Value(table) {
+						if ld, ok := st.Val.(*ssa.UnOp); ok && table != nil && ld.X == ssa.Value(table) {
 							okUse = true
 						}
 					}
